@@ -358,6 +358,9 @@ def strip_calls(t):
         if t[0] == "op" and t[1].startswith("cast:") and t[2]:
             t = t[2][0]
             continue
+        if t[0] == "op" and t[1] == "mut" and t[2]:
+            t = t[2][0]
+            continue
         break
     return t
 
